@@ -46,6 +46,8 @@ func main() {
 		cmdSelftest(os.Args[2:])
 	case "replay":
 		cmdReplay(os.Args[2:])
+	case "sweep":
+		cmdSweep(os.Args[2:])
 	default:
 		fmt.Fprintln(os.Stderr, "unknown command", os.Args[1])
 		os.Exit(2)
@@ -111,3 +113,88 @@ func cmdVerify(args []string) {
 	fmt.Printf("%d/%d proved in %.1fs\n", np, len(all), time.Since(t0).Seconds())
 }
 
+
+// cmdSweep: development aid - run the zero-annotation safety sweep over packages and print a lock candidate list.
+func cmdSweep(args []string) {
+	fs := flag.NewFlagSet("sweep", flag.ExitOnError)
+	repo := fs.String("repo", "/repo", "repository root")
+	pkgs := fs.String("pkgs", "./internal/ast", "package patterns (comma separated)")
+	only := fs.String("only", "", "only functions whose key has this prefix")
+	timeout := fs.Int("t", 5, "solver timeout (s)")
+	lock := fs.String("lock", "", "write fully discharged function keys to this file (appending lines 'C04 <key>')")
+	fs.Parse(args)
+	t0 := time.Now()
+	eng, err := LoadEngine(*repo, strings.Split(*pkgs, ","), nil)
+	if err != nil {
+		fmt.Fprintln(os.Stderr, "load:", err)
+		os.Exit(2)
+	}
+	eng.assumeKindInv = true
+	keys := eng.sweepKeys(*only)
+	var all []*Oblig
+	var results []*FuncResult
+	for _, k := range keys {
+		res := eng.VerifyFunc(eng.fnByKey[k], VerifyOpts{Sweep: true})
+		results = append(results, res)
+		for _, o := range res.Obligs {
+			o.res = res
+		}
+		all = append(all, res.Obligs...)
+	}
+	fmt.Printf("%d functions, %d obligations generated in %.1fs\n", len(keys), len(all), time.Since(t0).Seconds())
+	Discharge(all, SolveOpts{TimeoutS: *timeout, Dir: "/tmp/govc-sweep"})
+	okFns, unsup := 0, 0
+	var lockLines []string
+	for _, res := range results {
+		if res.Unsupported != "" || res.ContractErr != "" {
+			unsup++
+			fmt.Printf("UNSUPPORTED %-55s %s%s\n", res.Key, res.Unsupported, res.ContractErr)
+			continue
+		}
+		bad := 0
+		for _, o := range res.Obligs {
+			if o.Status != "proved" {
+				bad++
+				fmt.Printf("  %-7s %-80s [%s] %s\n", o.Status, o.Name, o.Pos, o.Solver)
+			}
+		}
+		if bad == 0 {
+			okFns++
+			lockLines = append(lockLines, "C04 "+res.Key)
+		}
+	}
+	fmt.Printf("functions: %d total, %d fully discharged, %d outside the subset; %.1fs\n", len(results), okFns, unsup, time.Since(t0).Seconds())
+	if *lock != "" {
+		os.WriteFile(*lock, []byte(strings.Join(lockLines, "\n")+"\n"), 0o644)
+	}
+}
+
+// sweepKeys: source-level functions of the loaded packages (no synthetic wrappers, closures only with a contract).
+func (e *Engine) sweepKeys(prefix string) []string {
+	initial := map[string]bool{}
+	for _, p := range e.pkgs {
+		initial[p.PkgPath] = true
+	}
+	var keys []string
+	for k, fn := range e.fnByKey {
+		if prefix != "" && !strings.HasPrefix(k, prefix) {
+			continue
+		}
+		if fn.Synthetic != "" || len(fn.Blocks) == 0 || fn.Name() == "init" {
+			continue
+		}
+		root := fn
+		for root.Parent() != nil {
+			root = root.Parent()
+		}
+		if root.Pkg == nil || !initial[root.Pkg.Pkg.Path()] {
+			continue
+		}
+		if fn.Parent() != nil && e.contracts.Funcs[k] == nil {
+			continue
+		}
+		keys = append(keys, k)
+	}
+	sort.Strings(keys)
+	return keys
+}
